@@ -791,6 +791,19 @@ func (g *vGen) knownSc() int {
 	return g.rng.Intn(n)
 }
 
+// boundKey prefers a key that is bound right now
+func (g *vGen) boundKey() string {
+	ks := []string{}
+	for k := range g.h.gb.affinityMap {
+		ks = append(ks, k)
+	}
+	if len(ks) == 0 || g.rng.Intn(6) == 0 {
+		return g.key()
+	}
+	sort.Strings(ks)
+	return ks[g.rng.Intn(len(ks))]
+}
+
 func (g *vGen) key() string {
 	if g.rng.Intn(15) == 0 {
 		return ""
@@ -847,6 +860,9 @@ func (g *vGen) pickLine() string {
 	}
 	ctx := "gcp"
 	req := g.key() + "/"
+	if m == "bound" || m == "unbind" {
+		req = g.boundKey() + "/"
+	}
 	if strings.HasSuffix(m, "ks") {
 		n := r.Intn(3)
 		ks := []string{}
@@ -870,9 +886,9 @@ func (g *vGen) pickLine() string {
 		}
 	}
 	dl := "none"
-	if r.Intn(3) != 0 {
+	if r.Intn(3) != 0 || g.profile == "refresh" {
 		now := atomic.LoadInt64(&verifClock)
-		dl = strconv.FormatInt(now+int64(r.Intn(4))*1000000, 10)
+		dl = strconv.FormatInt(now+int64(r.Intn(3))*1000000, 10)
 	}
 	g.nextCall++
 	return fmt.Sprintf("pool pick call=%d picker=%d m=%s ctx=%s dl=%s req=%s", g.nextCall, pn, m, ctx, dl, req)
@@ -902,10 +918,25 @@ func (g *vGen) doneLine() string {
 
 func (g *vGen) scsLine() string {
 	r := g.rng
+	if len(g.h.gb.refreshingScRefs) > 0 && r.Intn(3) == 0 {
+		ids := []int{}
+		for sc := range g.h.gb.refreshingScRefs {
+			ids = append(ids, sc.(*vSubConn).id)
+		}
+		sort.Ints(ids)
+		st := "READY"
+		if r.Intn(5) == 0 {
+			st = []string{"CONNECTING", "TF", "IDLE", "SHUTDOWN"}[r.Intn(4)]
+		}
+		return fmt.Sprintf("pool scs sc=%d st=%s", ids[r.Intn(len(ids))], st)
+	}
 	sts := []string{"READY", "READY", "READY", "CONNECTING", "TF", "IDLE"}
 	if g.profile == "states" || g.profile == "chaos" {
-		sts = append(sts, "SHUTDOWN", "TF", "CONNECTING", "IDLE")
-	} else if r.Intn(40) == 0 {
+		sts = append(sts, "TF", "CONNECTING", "IDLE")
+		if r.Intn(3) == 0 {
+			sts = append(sts, "SHUTDOWN")
+		}
+	} else if r.Intn(60) == 0 {
 		sts = append(sts, "SHUTDOWN")
 	}
 	return fmt.Sprintf("pool scs sc=%d st=%s", g.knownSc(), sts[r.Intn(len(sts))])
@@ -933,8 +964,11 @@ func (g *vGen) next(i int) string {
 			line = g.doneLine()
 		case w < 82:
 			line = g.scsLine()
-		case w < 88:
+		case w < 88 || (g.profile == "refresh" && w < 92):
 			dts := []int64{0, 1, 999999, 1000000, 1000001, 2000000, 2000001, 4000001, 500000}
+			if g.profile == "refresh" || g.profile == "affinity" {
+				dts = []int64{1000000, 1000001, 2000000, 2000001, 3000001, 4000001, 6000001, 8000001, 12000001, 999999}
+			}
 			line = fmt.Sprintf("pool adv ns=%d", dts[r.Intn(len(dts))])
 		case w < 92:
 			if r.Intn(3) == 0 {
